@@ -134,6 +134,33 @@ func (ex *executor) callEffects(cc *ssa.CallCommon) callEff {
 		eff.all = true
 		return eff
 	}
+	switch fnKey(callee) {
+	case "math.Floor", "math.Ceil", "math.Trunc":
+		return eff
+	case "sort.Slice", "sort.SliceStable":
+		if mi, ok := cc.Args[0].(*ssa.MakeInterface); ok {
+			if sl, ok := mi.X.Type().Underlying().(*types.Slice); ok {
+				for _, c := range ex.eng.leafClasses("elem", sl.Elem(), "") {
+					eff.classes[c.Name] = true
+				}
+				return eff
+			}
+		}
+	case "container/heap.Init", "container/heap.Push", "container/heap.Pop", "container/heap.Fix", "container/heap.Remove":
+		if mi, ok := cc.Args[0].(*ssa.MakeInterface); ok {
+			if pt, ok := mi.X.Type().Underlying().(*types.Pointer); ok {
+				if sl, ok := pt.Elem().Underlying().(*types.Slice); ok {
+					for _, c := range ex.eng.leafClasses("elem", sl.Elem(), "") {
+						eff.classes[c.Name] = true
+					}
+					for _, cn := range ex.storeClasses(mi.X) {
+						eff.classes[cn] = true
+					}
+					return eff
+				}
+			}
+		}
+	}
 	c := ex.contractFor(callee)
 	if c != nil && !c.Inline {
 		if c.Pure {
@@ -317,6 +344,10 @@ func (ex *executor) execCall(st *state, in ssa.Instruction, cc *ssa.CallCommon, 
 		setRes(v)
 		return
 	}
+	if v, ok := ex.containerIntrinsic(st, key, cc, args, rt); ok {
+		setRes(v)
+		return
+	}
 	if mc, ok := cc.Value.(*ssa.MakeClosure); ok {
 		// immediately-invoked closure
 		var binds []Value
@@ -423,7 +454,10 @@ func (ex *executor) applyContract(st *state, c *Contract, key string, names []st
 				continue
 			}
 		}
-		ex.addObligation(st, "pre", fmt.Sprintf("call %s requires %s", short, clauseLabel(rq, i)), Implies(st.pc, t), pos)
+		po := ex.addObligation(st, "pre", fmt.Sprintf("call %s requires %s", short, clauseLabel(rq, i)), Implies(st.pc, t), pos)
+		if isLockLabel(rq.Label) {
+			po.Definite = true
+		}
 		ex.assume(st, t)
 	}
 	// frame
@@ -729,7 +763,11 @@ func (ex *executor) frameObligations(st *state, env *specEnv, sfx string, pos to
 		for _, l := range locs {
 			notAssigned = append(notAssigned, Not(l.covers(name, key)))
 		}
-		goals = append(goals, Implies(And(append(notAssigned, cond)...), Eq(h.Read(key), h0.Read(key))))
+		g := Implies(And(append(notAssigned, cond)...), Eq(h.Read(key), h0.Read(key)))
+		goals = append(goals, g)
+		if os.Getenv("GOVC_FRAME_SPLIT") != "" {
+			ex.addObligation(st, "frame", "class "+shortFnKey(name)+sfx, Implies(st.pc, g), pos)
+		}
 	}
 	ex.addObligation(st, "frame", "assigns"+sfx, Implies(st.pc, And(goals...)), pos)
 }
@@ -968,4 +1006,113 @@ func (ex *executor) intrinsic(st *state, key string, args []Value, rt types.Type
 		return Value{T: rt, C: []*Term{Raw("fp.roundToIntegral RTZ", FPSort, args[0].C[0])}}, true
 	}
 	return Value{}, false
+}
+
+// containerIntrinsic: sort.Slice and container/heap operations with a sound frame: only the
+// sorted slice's elements / the heap's slice header and backing elements change (to arbitrary
+// values of the right shape; the permutation / heap order itself is not modelled).
+func (ex *executor) containerIntrinsic(st *state, key string, cc *ssa.CallCommon, args []Value, rt types.Type) (Value, bool) {
+	r := ex.root()
+	switch key {
+	case "sort.Slice", "sort.SliceStable":
+		mi, ok := cc.Args[0].(*ssa.MakeInterface)
+		if !ok {
+			return Value{}, false
+		}
+		sl, ok := mi.X.Type().Underlying().(*types.Slice)
+		if !ok {
+			return Value{}, false
+		}
+		x := ex.val(mi.X)
+		cs := ex.eng.leafClasses("elem", sl.Elem(), "")
+		var before []*Heap
+		for _, c := range cs {
+			before = append(before, ex.heapOf(st, c))
+		}
+		ex.havocElems(st, sl.Elem(), x.C[0], x.C[1], x.C[2])
+		// the result is a permutation of the input: new[k] == old[perm(k)], perm a fresh function
+		perm := ex.fresh("sortperm")
+		bv := BoundVar("pk", BV(64))
+		pk := App(perm, BV(64), bv)
+		inRange := And(BVCmp("bvsle", BVI(0, 64), bv), BVCmp("bvslt", bv, x.C[2]))
+		var eqs []*Term
+		eqs = append(eqs, BVCmp("bvsle", BVI(0, 64), pk), BVCmp("bvslt", pk, x.C[2]))
+		for i, c := range cs {
+			nw := ex.heapOf(st, c).Read([]*Term{x.C[0], BVBin("bvadd", x.C[1], bv)})
+			od := before[i].Read([]*Term{x.C[0], BVBin("bvadd", x.C[1], pk)})
+			eqs = append(eqs, Eq(nw, od))
+		}
+		ex.assume(st, Forall([]*Term{bv}, Implies(inRange, And(eqs...))))
+		r.abstracted["sort.Slice: the sorted slice becomes some permutation of itself (the order itself is not modelled), nothing else changes"]++
+		return Value{T: rt}, true
+	case "container/heap.Init", "container/heap.Push", "container/heap.Pop", "container/heap.Fix", "container/heap.Remove":
+		mi, ok := cc.Args[0].(*ssa.MakeInterface)
+		if !ok {
+			return Value{}, false
+		}
+		pt, ok := mi.X.Type().Underlying().(*types.Pointer)
+		if !ok {
+			return Value{}, false
+		}
+		sl, ok := pt.Elem().Underlying().(*types.Slice)
+		if !ok {
+			return Value{}, false
+		}
+		pv := ex.val(mi.X)
+		a := ex.addrOf(pv)
+		old := ex.load(st, a)
+		// elements of the old backing array may be permuted in place
+		ex.havocElems(st, sl.Elem(), old.C[0], old.C[1], old.C[3])
+		nv := freshValue("heap", pt.Elem())
+		ex.boundRefs(nv, pt.Elem(), IAdd(st.alloc, IntC(1)))
+		one := BVI(1, 64)
+		switch key {
+		case "container/heap.Push":
+			ex.assume(st, Eq(nv.C[2], BVBin("bvadd", old.C[2], one)))
+			// appended in place or reallocated into a fresh array
+			nr := ex.newRef(st)
+			ex.assume(st, Or(And(Eq(nv.C[0], old.C[0]), Eq(nv.C[1], old.C[1])), Eq(nv.C[0], nr)))
+		case "container/heap.Pop", "container/heap.Remove":
+			if ex.safety {
+				ex.addObligation(st, "bounds", "heap.Pop on a non-empty heap "+ex.srcText(cc.Pos(), ""), Implies(st.pc, BVCmp("bvsgt", old.C[2], BVI(0, 64))), cc.Pos())
+			}
+			ex.assume(st, BVCmp("bvsgt", old.C[2], BVI(0, 64)))
+			ex.assume(st, And(Eq(nv.C[2], BVBin("bvsub", old.C[2], one)), Eq(nv.C[0], old.C[0])))
+		default:
+			ex.assume(st, And(Eq(nv.C[2], old.C[2]), Eq(nv.C[0], old.C[0]), Eq(nv.C[1], old.C[1]), Eq(nv.C[3], old.C[3])))
+		}
+		ex.store(st, a, nv)
+		r.abstracted["container/heap: heap slice header and elements become arbitrary (heap order not modelled), length tracked, nothing else changes"]++
+		if key == "container/heap.Pop" || key == "container/heap.Remove" {
+			return freshValue("heap.pop", rt), true
+		}
+		return Value{T: rt}, true
+	}
+	return Value{}, false
+}
+
+// havocElems: elements [0,n) of the slice (arr, off) take arbitrary values.
+func (ex *executor) havocElems(st *state, elem types.Type, arr, off, n *Term) {
+	cs := ex.eng.leafClasses("elem", elem, "")
+	tag := ex.fresh("perm")
+	lo := off
+	hi := BVBin("bvadd", off, n)
+	for _, c := range cs {
+		h := ex.heapOf(st, c)
+		st.heaps[c.Name] = h.Havoc(tag, func(key []*Term) *Term {
+			return And(Eq(key[0], arr), BVCmp("bvsle", lo, key[1]), BVCmp("bvslt", key[1], hi))
+		})
+		if c.Name == byteClassName {
+			ex.bumpVer(st, arr)
+		}
+	}
+}
+
+func isLockLabel(l string) bool {
+	for _, p := range []string{"not-locked", "write-locked", "read-locked", "locked", "not-held", "no-recursive", "no-write-lock"} {
+		if strings.HasPrefix(l, p) {
+			return true
+		}
+	}
+	return false
 }
